@@ -346,7 +346,7 @@ func main() {
 		tableLines(o)
 	}
 	k++
-	np := f.N(600, 60000)
+	np := f.N(3000, 200000)
 	for i := 0; i < np; i, k = i+1, k+1 {
 		if !f.Want(k) {
 			continue
